@@ -397,8 +397,27 @@ _PURE = (ast.Name, ast.Attribute, ast.Constant, ast.Compare, ast.BoolOp, ast.Una
          ast.Load, ast.cmpop, ast.boolop, ast.unaryop, ast.operator, ast.expr_context)
 
 
+# methods / builtins that neither mutate their receiver nor depend on anything but their operands, on every builtin type
+_PURE_METHODS = {"encode", "decode", "strip", "lstrip", "rstrip", "lower", "upper", "split", "rsplit", "join", "startswith", "endswith",
+                 "format", "get", "keys", "values", "items", "copy", "hex", "digest", "hexdigest", "count", "index", "find", "replace",
+                 "to_bytes", "bit_length", "total_seconds", "isdigit", "partition", "rpartition", "casefold", "title"}
+_PURE_BUILTINS = {"len", "int", "str", "bytes", "tuple", "list", "sorted", "set", "frozenset", "min", "max", "abs", "bool", "dict",
+                  "isinstance", "repr", "float", "sum", "any", "all", "divmod", "round", "ord", "chr", "type", "id"}
+
+
 def _is_pure(e):
     for x in ast.walk(e):
+        if isinstance(x, ast.Call):
+            f = x.func
+            if x.keywords and any(k.arg is None for k in x.keywords):
+                return False
+            if isinstance(f, ast.Attribute) and f.attr in _PURE_METHODS:
+                continue
+            if isinstance(f, ast.Name) and f.id in _PURE_BUILTINS:
+                continue
+            return False
+        if isinstance(x, ast.keyword):
+            continue
         if not isinstance(x, _PURE):
             return False
         if isinstance(x, ast.Subscript) and not isinstance(x.slice, ast.Constant):
@@ -627,3 +646,90 @@ def raise_new_accumulators(fn, reviewed_locals):
                 lst[i - 1:i + 1] = [new]
                 done.append(tgt)
     return done
+
+
+# ---- local single-expression closures / lambdas that are new relative to the reviewed function ----------------------------
+def inline_new_closures(fn, reviewed_locals):
+    """`def f(a, b): return E` / `f = lambda a, b: E` nested in `fn`, f not a local of the reviewed function and used only as the
+    callee of plain positional calls: every call f(x, y) becomes E[a:=x, b:=y] and the definition is dropped.  Exact when each
+    argument is a name/constant or its parameter occurs once in E (no duplicated or reordered evaluation), E does not assign."""
+    if reviewed_locals is None:
+        return []
+    done = []
+    for parent in list(ast.walk(fn)):
+        body = getattr(parent, "body", None)
+        if not isinstance(body, list):
+            continue
+        for st in list(body):
+            name = params = expr = None
+            if isinstance(st, ast.FunctionDef) and st is not fn and not st.decorator_list:
+                stmts = [x for x in st.body if not (isinstance(x, ast.Expr) and isinstance(x.value, ast.Constant))]
+                if len(stmts) == 1 and isinstance(stmts[0], ast.Return) and stmts[0].value is not None:
+                    name, a, expr = st.name, st.args, stmts[0].value
+            elif isinstance(st, ast.Assign) and len(st.targets) == 1 and isinstance(st.targets[0], ast.Name) and isinstance(st.value, ast.Lambda):
+                name, a, expr = st.targets[0].id, st.value.args, st.value.body
+            if name is None or name in reviewed_locals:
+                continue
+            if a.vararg or a.kwarg or a.kwonlyargs or a.defaults or a.posonlyargs:
+                continue
+            params = [x.arg for x in a.args]
+            if any(isinstance(x, (ast.NamedExpr, ast.Await, ast.Yield, ast.YieldFrom, ast.Lambda)) for x in ast.walk(expr)):
+                continue
+            occ = {q: sum(1 for x in ast.walk(expr) if isinstance(x, ast.Name) and x.id == q) for q in params}
+            # every use of the name is the callee of a positional call, after the definition, in this function
+            uses = [x for x in ast.walk(fn) if isinstance(x, ast.Name) and x.id == name and not (isinstance(st, ast.Assign) and x is st.targets[0])]
+            calls = [x for x in ast.walk(fn) if isinstance(x, ast.Call) and isinstance(x.func, ast.Name) and x.func.id == name]
+            if not calls or len(calls) != len(uses):
+                continue
+            inside = {id(x) for x in ast.walk(st)}
+            if any(id(c) in inside for c in calls):
+                continue
+            ok = True
+            for c in calls:
+                if c.keywords or len(c.args) != len(params) or any(isinstance(x, ast.Starred) for x in c.args):
+                    ok = False
+                for q, arg in zip(params, c.args):
+                    if occ[q] != 1 and not isinstance(arg, (ast.Name, ast.Constant)):
+                        ok = False
+                if getattr(c, "lineno", 0) < getattr(st, "lineno", 0):
+                    ok = False
+            # names the body captures must not be parameters shadowing something the arguments mention
+            if not ok:
+                continue
+            for c in calls:
+                repl = _Subst(dict(zip(params, c.args))).visit(_clone_tree(expr))
+                for y in ast.walk(repl):
+                    if "lineno" in getattr(y, "_attributes", ()):
+                        y.lineno, y.col_offset = c.lineno, c.col_offset
+                        y.end_lineno, y.end_col_offset = getattr(c, "end_lineno", c.lineno), getattr(c, "end_col_offset", c.col_offset)
+                _replace_node(fn, c, repl)
+            body.remove(st)
+            if not body:
+                body.append(ast.Pass())
+            done.append(name)
+    return done
+
+
+def _clone_tree(n):
+    import copy
+    for x in ast.walk(n):
+        if hasattr(x, "_parent"):
+            try:
+                del x._parent
+            except AttributeError:
+                pass
+    return copy.deepcopy(n)
+
+
+def _replace_node(root, old, new):
+    for parent in ast.walk(root):
+        for f, v in ast.iter_fields(parent):
+            if v is old:
+                setattr(parent, f, new)
+                return True
+            if isinstance(v, list):
+                for i, x in enumerate(v):
+                    if x is old:
+                        v[i] = new
+                        return True
+    return False
